@@ -595,7 +595,10 @@ def _default(I, info, args):
         return StrV('')
     if sh == 'bool':
         return False
-    if sh in ('EsSyntax', 'PrintArgs'):
+    if sh == 'PrintArgs':
+        # swc_compiler_base::PrintArgs::default()
+        return Adt('PrintArgs', None, [none(), none(), none(), False, Opaque('SourceMapsConfig::default'), Opaque('DUMMY_NAMES'), none(), none(), False, StrV(''), Opaque('codegen::Config::default'), none()])
+    if sh in ('EsSyntax',):
         return Opaque(sh)
     raise Unsupported('Default for %s' % sh)
 
